@@ -326,7 +326,9 @@ def build_params(spec):
   )
   if spec["endpoint"] in ("gp_next", "gp_ei", "search_next", "hyperopt"):
     params["model_info"] = GPModelInfo(
-      hyperparameters=([copy.deepcopy(spec["hyperparameters"][0])] * m if spec.get("share_hyperparameters") and m
+      # one shared dict object only when the per-metric records really are equal (a harness may have edited some of them)
+      hyperparameters=([copy.deepcopy(spec["hyperparameters"][0])] * m
+                       if spec.get("share_hyperparameters") and m and all(h == spec["hyperparameters"][0] for h in spec["hyperparameters"])
                        else copy.deepcopy(spec["hyperparameters"])),
       max_simultaneous_af_points=spec["max_simultaneous_af_points"],
       nonzero_mean_info={"mean_type": spec["mean_type"], "poly_indices": None},
